@@ -130,6 +130,16 @@ func ruleTermsShapeOps(c *Ctx, prop string) {
 				// the axis operand: the attribute, possibly normalised: phi(.axis|(.axis+len(Shape(P1[0])))) or .axis
 				pre := strings.Split(w, "AXIS")[0]
 				ok = strings.HasPrefix(g, pre) && strings.HasSuffix(g, ")") && strings.Contains(g[len(pre):], ".axis") && !strings.Contains(g[len(pre):], "Transpose")
+				if !ok {
+					// through a helper that is handed the gorgonia kernel itself: helper(fn:SoftMax,P1[0],axis); the
+					// helper's own kernel calls are judged by R7:softmax-kernel
+					kern := strings.TrimSuffix(pre, "(P1[0],")
+					if i := strings.Index(g, "(fn:"+kern+",P1[0],"); i > 0 && !strings.ContainsAny(g[:i], "(,") {
+						rest := g[i+len("(fn:"+kern+",P1[0],"):]
+						ok = strings.HasSuffix(rest, ")") || strings.HasSuffix(rest, ")#1")
+						ok = ok && strings.Contains(rest, ".axis") && !strings.Contains(rest, "Transpose")
+					}
+				}
 			} else if strings.Contains(w, "TARGET") {
 				// the target operand: a fresh tensor built from the requested shape (inputs[1]); first result of the helper
 				pre := strings.Split(w, "TARGET")[0]
@@ -803,4 +813,141 @@ func (c *Ctx) kindPoly(kc *kindCtx, v ssa.Value, depth int) poly {
 		}
 	}
 	return poly{c.term(v, 0): 1}
+}
+
+// ---- R7:softmax-kernel: gorgonia's last-axis softmax kernel is never reached with several rows ------
+//
+// Audited in gorgonia.org/tensor@v0.9.24 defaultengine_softmax.go: softMaxLastDimF32/F64 (l.204, l.451)
+// seed the maximum of every row with xArr[0], the first element of the WHOLE tensor, and start comparing
+// at the row's second element. For every row but the first the shift is max(x[0,0], row[1:]): with
+// [[1000,0],[0,0]] the second row becomes NaN (exp(-1000) sums to 0), with [[0,0],[1000,0]] it overflows.
+// The kernel for inner axes (softMaxInnerDim*) takes the maximum from the lane itself. So every call of
+// tensor.SoftMax / tensor.LogSoftMax must either be on a path where the axis is known not to be the last
+// one, or be given a tensor that was reshaped to carry a trailing axis of extent 1.
+func ruleSoftmaxKernel(c *Ctx, prop string) {
+	var roots []*ssa.Function
+	for _, name := range []string{"Softmax", "LogSoftmax"} {
+		if oi := c.opByName(name); oi != nil {
+			roots = append(roots, oi.methods["Apply"])
+		}
+	}
+	isKernel := func(f *ssa.Function) bool {
+		return f != nil && fnPkgPath(f) == pkgTensor && (f.Name() == "SoftMax" || f.Name() == "LogSoftMax")
+	}
+	var fns []*ssa.Function
+	for f := range c.reachFrom(roots) {
+		if isLibFn(f) {
+			fns = append(fns, f)
+		}
+	}
+	sort.Slice(fns, func(i, j int) bool { return fname(fns[i]) < fname(fns[j]) })
+	n := 0
+	per := map[string]int{}
+	for _, f := range fns {
+		for _, b := range f.Blocks {
+			for _, in := range b.Instrs {
+				cl, ok := in.(*ssa.Call)
+				if !ok || len(cl.Common().Args) < 2 {
+					continue
+				}
+				kernel := false
+				if isKernel(cl.Common().StaticCallee()) {
+					kernel = true
+				} else if p, isP := cl.Common().Value.(*ssa.Parameter); isP && !cl.Common().IsInvoke() {
+					// a function-typed parameter that every caller binds to one of the kernels
+					idx := -1
+					for i, q := range f.Params {
+						if q == p {
+							idx = i
+						}
+					}
+					nSites, all := 0, true
+					if node := c.cg.Nodes[f]; node != nil && idx >= 0 {
+						for _, e := range node.In {
+							if e.Site == nil || !isLibFn(e.Caller.Func) {
+								continue
+							}
+							args := e.Site.Common().Args
+							if idx < len(args) {
+								nSites++
+								if !isKernel(funcValueOf(args[idx])) {
+									all = false
+								}
+							}
+						}
+					}
+					kernel = nSites > 0 && all
+				}
+				if !kernel {
+					continue
+				}
+				n++
+				per[fname(f)]++
+				key := fmt.Sprintf("R7:softmax-kernel:%s#%d", fname(f), per[fname(f)])
+				T, A := cl.Common().Args[0], cl.Common().Args[1]
+				// (i) the axis is known not to be the last one
+				notLast := false
+				for _, g := range guardsOf(b) {
+					for _, a := range atomsOf(g) {
+						if a.op != token.NEQ {
+							continue
+						}
+						x, y := a.x, a.y
+						if y == A {
+							x, y = y, x
+						}
+						if x != A {
+							continue
+						}
+						if sb, isSb := y.(*ssa.BinOp); isSb && sb.Op == token.SUB {
+							if k, isK := constInt(sb.Y); isK && k == 1 {
+								if lc, isL := sb.X.(*ssa.Call); isL {
+									if bi, isB := lc.Common().Value.(*ssa.Builtin); isB && bi.Name() == "len" && strings.Contains(c.term(lc.Common().Args[0], 0), "Shape(") {
+										notLast = true
+									}
+								}
+							}
+						}
+					}
+				}
+				// (ii) the tensor carries a trailing unit axis: T.Reshape(append(shape, 1)...) dominates the call
+				trailing := false
+				for _, bb := range f.Blocks {
+					if !bb.Dominates(b) {
+						continue
+					}
+					for _, in2 := range bb.Instrs {
+						rs, ok := in2.(*ssa.Call)
+						if !ok {
+							continue
+						}
+						if nm, recv := tensorMethod(rs); nm != "Reshape" || recv != T {
+							continue
+						}
+						if bb == b && !instrBefore(rs, cl) {
+							continue
+						}
+						args := rs.Common().Args
+						if ap, isAp := stripConv(args[len(args)-1]).(*ssa.Call); isAp {
+							if bi, isB := ap.Common().Value.(*ssa.Builtin); isB && bi.Name() == "append" && strings.Contains(c.term(ap.Common().Args[0], 0), "Shape(") {
+								els := varargElems(ap.Common().Args[1])
+								if len(els) == 1 {
+									if k, isK := constInt(els[0]); isK && k == 1 {
+										trailing = true
+									}
+								}
+							}
+						}
+					}
+				}
+				c.decide(notLast || trailing, "R7", key, c.pos(cl.Pos()),
+					"gorgonia's softmax kernel is reached either with an axis that is not the last one or with a tensor that carries a trailing unit axis",
+					"gorgonia's kernel for the LAST axis can be reached with a tensor of several rows: it takes every row's maximum from the first element of the whole tensor (defaultengine_softmax.go, softMaxLastDim*), so a large value in one sample turns other samples into NaN/Inf - e.g. softmax([[1000,0],[0,0]]) has a second row of NaN where that row alone gives [0.5 0.5]")
+			}
+		}
+	}
+	c.counts["R7.softmax_kernel_calls"] = n
+	if n < 2 {
+		c.undecided("R7", "R7:softmax-kernel:floor", "", fmt.Sprintf("%d calls of gorgonia's SoftMax/LogSoftMax found under Softmax/LogSoftmax (floor 2)", n))
+	}
 }
